@@ -191,14 +191,12 @@ def run_terminal_info(mutate=None):
     Device = L["Device"]
 
     def fresh(mesh, terminals, xi):
-        d = Device.__new__(Device)
-        for k in ("_terminal_info", "_cache", "_info"):        # attributes a caching variant would initialise in __init__
-            pass
-        d.layer = type("Layer", (), {})()
-        d.layer.coherence_length = xi
-        d._length_units = "um"
+        # the REAL constructor (stub polygons: only name / is_valid are read), then the mesh is attached as make_mesh does
+        layer = type("Layer", (), {})()
+        layer.coherence_length = xi
+        film = type("Film", (), {"name": "film", "is_valid": True})()
+        d = Device("d", layer=layer, film=film, terminals=list(terminals), length_units="um")
         d.mesh = mesh
-        d.terminals = tuple(terminals)
         return d
 
     def judge(tag, got, mesh, terminals, xi):
